@@ -32,6 +32,12 @@ pub struct Case {
     pub s: f64,
     pub n: i64,
     pub len: u8,
+    /// wide-magnitude scalar for the multiplicative scalar families: 0 = off, otherwise the scalar is
+    /// +-10^(ws * 290) (f32: 10^(ws * 30)), ws in (-1, 1)
+    #[serde(default)]
+    pub ws: f64,
+    #[serde(default)]
+    pub wneg: bool,
 }
 
 pub struct C08;
@@ -155,6 +161,54 @@ impl<'a> TyVisitorRef for V<'a> {
                 expect_same!(dims, lay, base, r, 0.0, "neg", "-&a", ctx());
                 let z = T::zero() - a.clone();
                 expect_same!(dims, lay, base, z, 0.0, "neg", "0 - a", ctx());
+            }
+            7 | 8 if case.ws != 0.0 => {
+                // wide-magnitude scalar: every part of a*s (a/s) is the correctly rounded product
+                // (quotient) of the part and the scalar - the result is representable although 1/s^2 need not be
+                let is32 = <T::F as Flt>::IS32;
+                // exponent range in which 1/s^(order+1) is representable (needed by the dual-dual form; on nested
+                // types also by the scalar form, which divides the inner dual numbers by the lifted scalar)
+                let lim = if is32 { 34.0 } else { 290.0 } / (lay.alg().depth() as f64 * if T::levels() > 1 { 2.0 } else { 1.0 } + 1.0);
+                let full = if is32 { 30.0 } else { 290.0 };
+                let e = case.ws.clamp(-1.0, 1.0) * if T::levels() > 1 { lim * 0.95 } else { full };
+                let sw = round_to::<T::F>(if case.wneg { -(10f64.powf(e)) } else { 10f64.powf(e) });
+                let name = if fam == 7 { "mul_scalar" } else { "div_scalar" };
+                let owned = if fam == 7 { a.clone() * sf(sw) } else { a.clone() / sf(sw) };
+                let mut asg = a.clone();
+                if fam == 7 {
+                    asg *= sf(sw);
+                } else {
+                    asg /= sf(sw);
+                }
+                let ctxw = || format!("a = {}, s = {:e}", flat_json(&lay, &fa), sw);
+                expect_same!(dims, lay, owned, asg, 0.0, name, "a op= s (wide scalar)", ctxw());
+                let fo = owned.to_flat(dims);
+                let (tiny, huge) = if is32 { (1e-36, 1e37) } else { (1e-305, 1e306) };
+                for (i, part) in fa.vals.iter().enumerate() {
+                    let present = lay.slot_present(i, &fa.pres);
+                    let p = if present { *part } else { 0.0 };
+                    let want = if fam == 7 { p * sw } else { p / sw };
+                    if want != 0.0 && !(want.abs() > tiny && want.abs() < huge) {
+                        continue;
+                    }
+                    let got = fo.vals[i];
+                    // one rounding on the plain types; on nested types the inner dual-dual division takes a few more
+                    if !((got - want).abs() <= if T::levels() > 1 { 16.0 } else { 4.0 } * u * want.abs()) {
+                        return Verdict::Fail {
+                            sig: format!("C08/{name}/wide-scalar"),
+                            why: format!("{}: part {} of `a {} s` is {:e} but part {} s = {:e}; {}", T::tname(dims), lay.slots[i].name, if fam == 7 { "*" } else { "/" }, got, if fam == 7 { "*" } else { "/" }, want, ctxw()),
+                        };
+                    }
+                }
+                // the dual-dual form with the lifted scalar, while 1/s^(order+1) is representable
+                if e.abs() < lim {
+                    let lifted = T::from(sf(sw));
+                    let base = if fam == 7 { a.clone() * lifted } else { a.clone() / lifted };
+                    expect_same!(dims, lay, base, owned, 16.0 * u, name, "a op s (wide scalar)", ctxw());
+                    st.class("wide scalar: compared with the lifted dual-dual form");
+                }
+                st.class("wide-magnitude scalar");
+                nontrivial = nonzero_parts(&lay, &fa, 1) >= 2;
             }
             5..=8 => {
                 if s == 0.0 {
@@ -334,8 +388,9 @@ impl Property for C08 {
             (parts_pool(), parts_pool(), parts_pool()),
             (presence(), proptest::collection::vec(proptest::bool::weighted(0.75), 8)),
             (scalar, prop_oneof![-300i64..300, any::<i64>()], any::<u8>()),
+            (prop_oneof![2 => Just(0.0f64), 1 => -1.0f64..1.0], any::<bool>()),
         )
-            .prop_map(|((ty, dims, fam), (ra, rb, rc), (a, b, c), ((pres_a, zero), pres_b), (s, n, len))| Case { ty, dims, fam, ra, rb, rc, a, b, c, pres_a, pres_b, zero, s, n, len })
+            .prop_map(|((ty, dims, fam), (ra, rb, rc), (a, b, c), ((pres_a, zero), pres_b), (s, n, len), (ws, wneg))| Case { ty, dims, fam, ra, rb, rc, a, b, c, pres_a, pres_b, zero, s, n, len, ws, wneg })
             .boxed()
     }
     fn check(case: &Case, st: &mut Stats) -> Verdict {
@@ -347,10 +402,11 @@ impl Property for C08 {
             || case.pres_b.is_empty()
             || case.zero.is_empty()
             || ![case.ra, case.rb, case.rc, case.s].iter().all(|x| x.is_finite() && x.abs() <= 1e3)
+            || !case.ws.is_finite()
         {
             return Verdict::Trivial("malformed case");
         }
-        let dims = [case.dims.0 as usize, case.dims.1 as usize];
+        let dims = [case.dims.0 as usize % 7, case.dims.1 as usize % 7];
         dispatch_ref(case.ty, &dims, V { case, st })
     }
     fn cases(tier: Tier) -> u64 {
@@ -360,7 +416,7 @@ impl Property for C08 {
         }
     }
     fn rule() -> String {
-        "generated: (type from the 58-type registry, one of 15 form families, operands with arbitrary parts and presence patterns, scalar incl. 0 and +-1, primitive integer incl. extreme i64, iterator length 0..4). Families: a op b vs &a op &b, a op &b, &a op b, a op= b for + - * / (bit-for-bit, and the base form against the reference algebra); -a vs -&a vs 0-a; a op s and a op= s vs a op D::from(s) (additive exact, multiplicative to 16 u per part); inv vs recip; Sum / Product over owned and borrowed iterators (incl. empty) vs folds; default mul_add vs a*b+c; From<F> and the 14 FromPrimitive constructors vs the lifted float (constant with zero parts, None exactly when the float conversion is None); Zero, One and the 16 FloatConst constants have the float constant's bits and zero parts. Non-trivial: operands with >= 2 non-zero derivative parts, scalar not in {0,+-1}, iterator length >= 2.".into()
+        "generated: (type from the 58-type registry, one of 15 form families, operands with arbitrary parts and presence patterns, scalar incl. 0 and +-1, primitive integer incl. extreme i64, iterator length 0..4). Families: a op b vs &a op &b, a op &b, &a op b, a op= b for + - * / (bit-for-bit, and the base form against the reference algebra); -a vs -&a vs 0-a; a op s and a op= s vs a op D::from(s) (additive exact, multiplicative to 16 u per part; one multiplicative-scalar case in three uses a wide-magnitude scalar +-10^e, |e| <= 290 (f32: 30), where every part of the result must be the correctly rounded part*s resp. part/s and the lifted form is compared while 1/s^(order+1) is representable); inv vs recip; Sum / Product over owned and borrowed iterators (incl. empty) vs folds; default mul_add vs a*b+c; From<F> and the 14 FromPrimitive constructors vs the lifted float (constant with zero parts, None exactly when the float conversion is None); Zero, One and the 16 FloatConst constants have the float constant's bits and zero parts. Non-trivial: operands with >= 2 non-zero derivative parts, scalar not in {0,+-1}, iterator length >= 2.".into()
     }
     fn assumptions() -> Vec<String> {
         vec!["numerical equality (== on every part, NaN = NaN); presence patterns of the results are not compared (that is C07)".into()]
